@@ -92,6 +92,23 @@ def regen_lockset(ctx):
     return []
 
 
+def build_race_probe(ctx):
+    """Quick tier: a second build of the harness with the race detector, used by the harness for two crash-probe children
+    (C05_RACE_BIN), so that a pure data race gives a failing input in the quick tier as well.  The thorough tier builds the
+    whole harness with -race."""
+    os.environ.pop("C05_RACE_BIN", None)
+    if ctx.tier != "quick":
+        return []
+    binp = os.path.join(ctx.scratch, "h_c05_race")
+    cmd = ["go", "build", "-tags", "verif", "-race"] + checklib.modfile_args(ctx) + ["-o", binp, "./c05"]
+    rc, out = checklib.sh(cmd, cwd=checklib.HARNESS, timeout=900)
+    if rc == 0 and os.path.exists(binp):
+        os.environ["C05_RACE_BIN"] = binp
+    else:
+        ctx.notes.append("race-detector build of the probe not available: " + checklib.tail(out, 3))
+    return []
+
+
 def regen(ctx):
     fails = checklib.regen_skeletons(ctx, [
         MAPDB + "mapDB.Get", MAPDB + "mapDB.Has", MAPDB + "mapDB.Set", MAPDB + "mapDB.Delete", MAPDB + "mapDB.DeletePrefix",
@@ -104,7 +121,7 @@ def regen(ctx):
         MAPDB + "batchedMutations.Set", MAPDB + "batchedMutations.Delete", MAPDB + "batchedMutations.Cancel",
         MAPDB + "type=mapDB", MAPDB + "type=batchedMutations", SYNCED + "type=syncedKVMap",
     ], extra_methods=["Load", "Swap"])
-    return (fails or []) + regen_srcpin(ctx) + regen_wrapskel(ctx) + regen_lockset(ctx)
+    return (fails or []) + regen_srcpin(ctx) + regen_wrapskel(ctx) + regen_lockset(ctx) + build_race_probe(ctx)
 
 
 SPEC = {
@@ -114,8 +131,8 @@ SPEC = {
     "driver": "drv_c05",
     "harness": "c05",
     "race": True,
-    "theorems": ["C05_linearizable", "C05_linearizable_open", "C05_linearizable_close", "C05_checker_complete_on_model", "C05_checker_complete",
-                 "C05_lin_points_in_window", "C05_finished_complete", "C05_iterate_snapshot",
+    "theorems": ["C05_linearizable", "C05_linearizable_open", "C05_linearizable_close", "C05_recorded_wrapped_history_linearizable", "C05_checker_complete_on_model", "C05_checker_complete",
+                 "C05_lin_points_in_window", "C05_finished_complete", "C05_iterate_snapshot", "C05_iterate_one_instant",
                  "C05_well_locked", "C05_locks_exclusive", "C05_map_access_only_at_eff", "C05_deadlock_free",
                  "C05_code_well_bracketed", "C05_effects_are_C04_spec", "C05_commit_effects_are_C04_spec",
                  "C05_checker_sound", "C05_skeleton_get", "C05_skeleton_has", "C05_skeleton_set", "C05_skeleton_delete",
@@ -124,7 +141,7 @@ SPEC = {
                  "C05_unused_lock_is_free", "C05_flag_only_calls", "C05_flag_call_contract",
                  "C05_skeleton_flag_calls", "C05_skeleton_batch_ops", "C05_skeleton_type_locks",
                  "C05_source_fresh_objects", "C05_source_flushkv", "C05_source_flushkv_forwarders",
-                 "C05_flushkv_calls", "C05_debug_callback", "C05_source_flushkv_realm", "C05_source_debug",
+                 "C05_flushkv_calls", "C05_closed_answer_means_no_effect", "C05_debug_callback", "C05_source_flushkv_realm", "C05_source_debug",
                  "C05_skeleton_flushkv_mutators", "C05_skeleton_flushkv_forwarders", "C05_skeleton_debug",
                  "C05_lockset_guard_table", "C05_lockset_mapdb", "C05_lockset_access_sites", "C05_lockset_views_immutable",
                  "C05_lockset_wrappers_stateless", "C05_lockset_words_cover", "C05_lockset_sound", "C05_lockset_mapdb_all_paths"],
@@ -134,8 +151,9 @@ SPEC = {
         "skeletons (C05_skeleton_* are proof obligations against Hive/Gen/C05_Skel.lean, regenerated on every run) and (ii) "
         "recorded concurrent histories of the real code decided by the Lean checker",
         "semantics of sync.RWMutex (writer preference: a pending Lock blocks new RLocks), sync.Mutex and atomic.Bool as written "
-        "in the model; Go's memory model (lock = happens-before) is assumed, data-race freedom of the real code is supported by "
-        "the -race build of the thorough tier only",
+        "in the model; Go's memory model (lock = happens-before) is assumed; data-race freedom of the real code: lockset obligations "
+        "(C05_lockset_*: go/ast extractor harness/c05/lockset is trusted, owner types resolved syntactically, unresolved selectors refused) "
+        "+ the -race build of the thorough tier",
         "the history checker decideHist (total Wing-Gong search with memoisation + witness validation) is proved sound and "
         "complete (C05_checker_sound, C05_checker_complete); trusted about it: the Lean compiler/runtime and Std.HashSet of the "
         "toolchain (the proofs use its contains/insert lemmas)",
@@ -146,9 +164,11 @@ SPEC = {
         "since the extension round also the flag-only calls WithRealm/WithExtendedRealm/Batched/Flush (closed-flag load + ghost "
         "access nop) and the batch-local calls batch Set/Delete/Cancel (batch mutex only); a created view/batch is a LockId not used "
         "before, free by C05_unused_lock_is_free",
-        "NOT modelled: the contents of a batch's private maps (a commit carries its write list); the flushkv wrapper (= wrapped call, "
-        "then a flag-only call whose `closed` answer is dropped: its complete source text is pinned by C05_source_flushkv*, and half "
-        "of the recorded histories run through it); the debug wrapper (a callback before the call)",
+        "the wrappers (round 6): a flushkv mutator (fset/fdel/fdelp/fclear/fcommit) = the wrapped mutator's code followed by `load`, the "
+        "closed.Load() of the Flush() issued by flushAfterMutation whose outcome is dropped (no Flush when the mutator's own flag load "
+        "failed); the debug wrapper's access callback = a call of its own without instruction in front of the wrapped call (script "
+        "fragment [callback, op]); every other wrapper method forwards (pinned source + call skeletons of every wrapper method)",
+        "NOT modelled: the contents of a batch's private maps (a commit carries its write list)",
         "an operation that loaded the flag before a concurrent Close still takes effect afterwards (as in the code): the ghost "
         "linearisation in trace order is sequential w.r.t. the specification in which a call fails with ErrStoreClosed iff it saw "
         "the flag set (seqOk); C05_linearizable_close proves that the recorded history of every trace is nevertheless linearizable "
@@ -166,8 +186,8 @@ SPEC = {
                 "trace is linearizable w.r.t. the full C04 contract including Close: "
                 "C05_linearizable_close; the very function drv_c05 runs accepts the history of every reachable trace of the model "
                 "(C05_checker_complete_on_model) and is a sound and complete decision procedure for linearizability of recorded "
-                "histories, up to an explicitly reported node budget (C05_checker_sound, C05_checker_complete); Iterate reports the range scan of one map state "
-                "(C05_iterate_snapshot); every map access happens under the map lock, write accesses exclusively (C05_well_locked, "
+                "histories, up to an explicitly reported node budget (C05_checker_sound, C05_checker_complete); Iterate reports the range scan of one map state, "
+                "the one at an instant strictly inside the call's window: exactly the writes linearised before it (C05_iterate_snapshot, C05_iterate_one_instant); every map access happens under the map lock, write accesses exclusively (C05_well_locked, "
                 "C05_locks_exclusive, C05_map_access_only_at_eff); no reachable deadlock with writer-preferring RWMutexes "
                 "(C05_deadlock_free, from rank order batch<view<map, C05_code_well_bracketed); the accesses are the C04 "
                 "specification's steps (C05_effects_are_C04_spec, C05_commit_effects_are_C04_spec); the history checker is sound "
@@ -175,14 +195,27 @@ SPEC = {
                 "(C05_skeleton_*, incl. the flag-only and batch-local calls and the type facts of the three lock-carrying structs) and pinned "
                 "source text of the object constructors and of the whole flushkv wrapper (C05_source_*, regenerated by harness/c05/srcpin); "
                 "a lock nobody uses is free, so a freshly created view cannot block (C05_unused_lock_is_free); "
+                "the flushkv and debug wrappers are part of the protocol model (C05_flushkv_calls: wrapped mutator ++ dropped flag load, same accesses, "
+                "so a Close between mutation and Flush cannot change the answer; C05_closed_answer_means_no_effect: a call - in particular a flushkv mutator - that answers "
+                "ErrStoreClosed made no access, the theorem the unrepaired flushkv falsifies; C05_debug_callback), every theorem therefore covers wrapped stores; what a harness records of a wrapped store - windows stamped at the "
+                "wrapper, i.e. wider than the model's - is linearizable too (C05_recorded_wrapped_history_linearizable); "
+                "tie of the wrappers: call skeletons of every wrapper method and the complete pinned source of flushkv and debug "
+                "(C05_skeleton_flushkv_*, C05_skeleton_debug, C05_source_flushkv*, C05_source_debug); "
+                "lockset tie for data-race freedom: for every function of mapdb/flushkv/debug the regenerated list of lock operations, control "
+                "structure and struct-field accesses is accepted by an analysis proved sound over ALL paths (C05_lockset_sound, C05_lockset_mapdb, "
+                "C05_lockset_mapdb_all_paths: every access to a Go map under the owner's mutex, writes exclusively, no escape, no lock leak; "
+                "C05_lockset_access_sites, C05_lockset_guard_table), views and wrappers have no other mutable field (C05_lockset_views_immutable, "
+                "C05_lockset_wrappers_stateless); "
                 "a crash probe in a child process turns fatal runtime errors / race reports / hangs into findings with the plan as replay; "
                 "stress + forced-schedule histories of the real packages (2..16 goroutines, shared views of "
-                "overlapping realms, atomic logical clock, Close in a quarter of them) decided by the Lean checker and, independently, by a Go checker; "
+                "overlapping realms, bare / flushkv / debug / flushkv(debug) / debug(flushkv) with four filter settings and a callback that reads the store, "
+                "atomic logical clock, Close in a quarter of them) decided by the Lean checker and, independently, by a Go checker; "
                 "watchdog for hangs; scenario families: snapshot, flushkv/Close, read-only phase, torn values, batch Delete+Set, large store with "
                 "DeletePrefix/Clear of more than half (final-state oracle), Commit racing Close (failed-commit-wrote), views created while their parent's "
                 "lock is held (freshview); caller-owned buffers are overwritten after every call (aliasing); thorough tier under -race.",
-        "note": "Data-race freedom is proved for the model's lock discipline only; for the real code it is supported by the race "
-                "detector runs. Fixed finding (b5d5462): behind flushkv a mutation racing Close took effect and still answered "
+        "note": "Data-race freedom: proved for the model's lock discipline (C05_well_locked), tied to the source statically by the lockset "
+                "obligations (sound analysis over regenerated token lists of every function; trusted: the syntactic extractor) and "
+                "dynamically by the race detector runs of the thorough tier. Fixed finding (b5d5462): behind flushkv a mutation racing Close took effect and still answered "
                 "ErrStoreClosed (forced-schedule scenario, design/C05.md). Trusted: Lean kernel, the protocol model (tied by skeleton obligations + histories), RWMutex semantics.",
         "technique": "Lean 4 invariant proofs over an interleaving model with arbitrary thread pool (ghost linearisation, lock "
                      "counting invariants, rank-based deadlock freedom) + verified-witness linearizability checking of recorded histories",
